@@ -303,7 +303,8 @@ MSG_RULE = ("BFS over histories of {pub by 4 users (one with forged sender heade
             "history reads, reload. suspended (C03): BFS to depth 5 / 7 over {member publishes to a group / p2p topic, root suspends / re-activates "
             "the owner, reload, re-attach, typing note}. suspend-at-load (C03): for every store-call boundary and atomic operation performed while a group / p2p topic is loaded, the root's "
             "suspension / re-activation of the owner handled completely at that point (the goroutine there is held); the member's publish "
-            "afterwards is refused iff the owner is suspended. sys (C02, C03; also a part of C07): BFS to depth 3 / 5 over publishes / attach attempts / history reads on 'sys' by an "
+            "afterwards is refused iff the owner is suspended. acl-fault (C03): the permission model's histories with every store call of the "
+            "last request failing once; after a request answered with an error every subscriber's publish is decided by the stored permissions. sys (C02, C03; also a part of C07): BFS to depth 3 / 5 over publishes / attach attempts / history reads on 'sys' by an "
             "ordinary, an anonymous-level, two root users and a connection which has not logged in. races (C02, C03): all schedules up to the "
             "deviation bound of the C14 collision scenarios which contain a publish: no session receives a message twice or out of order. "
             "cluster (C02): every sequence up to length 4 / 5 of {member joins, channel reader joins, reader leaves, publish, publish without "
@@ -329,7 +330,8 @@ for _cid, _what in [("C03", "publish decision = attached AND W in want&given; a 
                     ([Part("races", SRV, "^TestVerifC03Races$", instr=True, shards=(8, 16), deadline=(300, 3000)),
                       Part("suspended", SRV, "^TestVerifC03Suspended$", instr=True, gomaxprocs=16, deadline=(300, 2400)),
                       Part("sys", SRV, "^TestVerifC03Sys$", instr=True, gomaxprocs=16, deadline=(300, 2400)),
-                      Part("suspend-at-load", SRV, "^TestVerifC03SuspendAtLoad$", instr=True, shards=(16, 16))] if _cid == "C03" else []) +
+                      Part("suspend-at-load", SRV, "^TestVerifC03SuspendAtLoad$", instr=True, shards=(16, 16)),
+                      Part("acl-fault", SRV, "^TestVerifC03AclFault$", instr=True, gomaxprocs=16, deadline=(300, 2400))] if _cid == "C03" else []) +
                     ([Part("ranges", TYPES, "^TestVerifC04Ranges$", shards=(16, 16))] if _cid == "C04" else [])))
 
 reg(Check("C11", "model_checking",
